@@ -36,8 +36,11 @@ PAIRS = ["weightedL1_unit", "weightedMCP_unit", "enet_ratio1", "group_singletons
          "huber_delta_inf", "wquad_unit", "wquad_integer_replication", "cox_no_ties", "group_datafits", "multitask_onetask", "sparse_group_reductions"]
 
 
+NPARTS = 24
+
+
 def plan(tier, seed):
-    return [dict(op="pair", pair=p, weight=2) for p in PAIRS] + [dict(op="solutions", part=k, weight=4) for k in range(4)]
+    return [dict(op="pair", pair=p, weight=2) for p in PAIRS] + [dict(op="solutions", part=k, weight=4) for k in range(4 if tier == "quick" else NPARTS)]
 
 
 def pen_pair_scalar(ctx, name, gen_spec, spe_spec, P, tol=RT, gsteps=STEPS):
@@ -323,12 +326,20 @@ def run_datafit_pair(pair, ctx):
 
 # ------------------------------------------------------------------------------------------ solution level
 
+def sol_designs(tier):
+    out = [("tall6x3", A.G_TALL), ("sq4x4", A.G_SQ), ("wide3x5", A.G_WIDE), ("dup", A.K()["dup"])]
+    if tier != "quick":
+        # every {-1,0,1} design with 4 samples x 2 features (one per row-permutation / sign orbit)
+        out += [("T42o%d" % k, X) for k, X in enumerate(A.T_orbits(4, 2)) if np.any(X)]
+    return out
+
+
 def sol_cases(tier):
     out = []
     cd = dict(tol=1e-10, max_iter=100, max_epochs=5000)
-    for xid, X in [("tall6x3", A.G_TALL), ("sq4x4", A.G_SQ), ("wide3x5", A.G_WIDE), ("dup", A.K()["dup"])]:
+    for xid, X in sol_designs(tier):
         p = X.shape[1]
-        for a in (0.3, 0.03):
+        for a in ((0.3, 0.03) if tier == "quick" else (1.0, 0.3, 0.03)):
             for fi in (True, False):
                 base = dict(name="Lasso", kw=dict(alpha=a, fit_intercept=fi, **cd))
                 out.append(("wlasso_unit", dict(name="WeightedLasso", kw=dict(alpha=a, fit_intercept=fi, weights=[1.0] * p, **cd)), base, xid, "reg", 1e-10))
@@ -403,18 +414,20 @@ def run(task, ctx):
         ctx.sample(dict(op="pair", pair=task["pair"]))
         return
     cases = sol_cases(ctx.tier)
-    designs = {"tall6x3": A.G_TALL, "sq4x4": A.G_SQ, "wide3x5": A.G_WIDE, "dup": A.K()["dup"]}
+    designs = dict(sol_designs(ctx.tier))
+    nparts = 4 if ctx.tier == "quick" else NPARTS
     for i, (name, gen, spe, xid, tk, tol) in enumerate(cases):
-        if i % 4 != task["part"]:
+        if i % nparts != task["part"]:
             continue
         X = designs[xid]
-        y = R.targets("clf" if tk == "clf" else "reg", X, ctx.tier)[-1][1]
-        case = dict(op="solution", name=name, gen=gen, spe=spe, xid=xid, tk=tk, tol=tol, X=X.tolist(), y=y.tolist())
-        v, c = exec_solution(case)
-        ctx.count("solution_pairs")
-        ctx.obs(c, nontrivial=c is not None and bool(np.any(c)))
-        for kind, got, exp in v:
-            ctx.violation(f"reduction:{name}", kind, case, got, exp, where=dict(pair=name))
+        ts = R.targets("clf" if tk == "clf" else "reg", X, ctx.tier)
+        for tname, y in (ts[-1:] if ctx.tier == "quick" else ts):
+            case = dict(op="solution", name=name, gen=gen, spe=spe, xid=xid, tk=tk, tol=tol, X=X.tolist(), y=y.tolist())
+            v, c = exec_solution(case)
+            ctx.count("solution_pairs")
+            ctx.obs(c, nontrivial=c is not None and bool(np.any(c)))
+            for kind, got, exp in v:
+                ctx.violation(f"reduction:{name}", kind, case, got, exp, where=dict(pair=name))
     ctx.sample(dict(op="solutions", part=task["part"]))
 
 
